@@ -5,6 +5,9 @@ here = os.path.dirname(os.path.dirname(os.path.abspath(__file__)))
 
 # property -> (technique, level text, level note, design ref)
 CLAIMED = {
+ "C02": ("must-pass-through (CFG edge-cut reachability), value provenance and loop-iteration analysis on SSA of the security interpreter (RouteAuthenticator(s).Authenticate, Context.Authorize, newSecureAPI, buildAuthenticators)",
+         "Static: decides for all requirement structures and all per-scheme outcome vectors that admission, refusal and principal/scopes provenance have the required control-flow shape; does not decide user-supplied authenticators.",
+         "Trusts go/types+go/ssa of x/tools v0.29.0; go-openapi/analysis returns the spec's requirement alternatives.", "DESIGN.md §2 C02"),
  "C18": ("field-provenance and must-pass-through analysis on SSA/CFG of TLSClientAuth (all option combinations at once)",
          "Static: for every path of the loop-free TLSClientAuth, decides which value each security-relevant tls.Config field receives and that errors are returned; covers the whole option lattice symbolically. Does not decide crypto/tls handshake behaviour.",
          "Trusts go/types+go/ssa of x/tools v0.29.0 and the documented meaning of tls.Config fields.", "DESIGN.md §2 C18"),
